@@ -162,7 +162,7 @@ Section Loops.
   (* ================= one chunk: data, then its terminator ================= *)
   Definition chunk_end (ds : dstate) (out : list N) (s : st) : res (dstate * list N) :=
     match st_readline s with
-    | (LineTooLong, _) => Err ValueErr
+    | (LineTooLong, _) => Err ProtocolErr
     | (Line l, s1) => if (2 <? length l)%nat then Err ProtocolErr else Ok (ds, out) (notify l s1)
     end.
 
@@ -336,7 +336,7 @@ Section Loops.
         match read_trailer (fuel_of s1) [] s1 with
         | Err e => Err e
         | Ok tr s2 =>
-            match fields_parse true tr (r_fields r) with
+            match fields_parse false tr (r_fields r) with
             | None => Err ValueErr
             | Some fs => Ok (mkResp (r_version r) (r_status r) (r_reason r) fs, body) (notify tr s2)
             end
